@@ -13,6 +13,32 @@ CHECKS = {
             "shift-append on k-mers, column layout, legality of built graphs), kernel-checked; tied to dsw by running the "
             "extracted model and the implementation on every vertex of every order up to 5 (7 thorough) plus samples to k = 12.",
             "Coq proof (induction on k-mers, Z arithmetic) + extraction-based correspondence check", "5 C13"),
+    "C06": ("Theorem (both modes): for every accessor of four-column rows with in-range entries, every start vertex, every "
+            "string of arbitrary code points, every table of the right shape and every optional check, decode returns exactly "
+            "L bits iff the string is a walk and the check matches, and raises ValueError otherwise (fast mode: under the "
+            "stated no-out-degree-3 / carried-bits precondition); tied to dsw.decode by the correspondence check on walks, "
+            "edited walks, random and foreign strings, right/wrong checks, permutation and malformed tables.",
+            "Coq proof (induction on the strand) + extraction-based correspondence", "5 C06"),
+    "C07": ("Theorems for every strand and every n >= 1: set_vt equals the documented VT function (first symbol = sum mod 4, "
+            "then the (n-1)-digit base-4 rendering of the ascent-position sum mod 4^(n-1)), is defined on the empty strand, "
+            "changes under every substitution and every C/G/T indel, and decode with the original check rejects; tied to "
+            "dsw.set_vt / decode by the correspondence check incl. every single edit of sampled walks.",
+            "Coq proof (sum mod 4 argument, radix rendering) + extraction-based correspondence", "5 C07"),
+    "C11": ("Theorems with the filter as an arbitrary function (so for every user-defined filter): find_vertices marks index i "
+            "iff the filter accepts the i-th k-mer and raises ValueError iff none is accepted; connect_valid_graph returns "
+            "exactly the induced sub-graph with the column = last nucleotide layout, ValueError for the empty mask; tied to dsw "
+            "by the correspondence check with table-driven user filters (documented interface) and LocalBioFilters.",
+            "Coq proof + extraction-based correspondence", "5 C11"),
+    "C14": ("Theorems for every legal accessor (any arc subset, k >= 1): latter-map content and round trip, adjacency-matrix "
+            "content, round trip and rejection of non-shift arcs, vertex listing, equality of leaf queries from both "
+            "representations with the end points of all d-step walks; tied to dsw by the correspondence check on random arc "
+            "subsets and illegal single-arc matrices.",
+            "Coq proof + extraction-based correspondence", "5 C14"),
+    "C18": ("Theorems: argsort yields a permutation for any keys, digit->position and position->digit are inverse for any table "
+            "row, for permutation rows the code's choice is the rank-selected live arc and digit<->arc is a bijection; the 24 x "
+            "15 space is swept exhaustively inside Coq; the NumPy RNG is NOT modelled, so reproducibility and the table's "
+            "row-permutation shape are run-time checks of create_random_shuffles (partial on the RNG, as DESIGN.md section 7 says).",
+            "Coq proof (sorting/permutation lemmas, exhaustive vm_compute sweep) + correspondence + run-time table checks", "5 C18"),
     "C15": ("Theorems for decimal strings of ANY length and all ten operand digits: the digit-serial add / subtract / multiply "
             "/ divide loops return the canonical decimal string of the exact result; tied to dsw/operation.py by the "
             "correspondence check on shaped operands (carry and borrow chains up to 1400 digits).",
